@@ -7,7 +7,9 @@ tie 1    : E10TreeGoc — the locking shape of `get_or_create_entity_2`, regener
 tie 2    : correspondence `tree` — the real EntityTreeService / ThreadPool / TypeHierarchyService on
            materialised workspaces under forced schedules (yield point between lookup and insert)
 oracle   : the implementation's answers vs what the PROPERTY demands (`treespec` = the declared
-           relation), also for free-running 7-worker builds
+           relation), also for free-running 7-worker builds; every returned item must lie in the file of
+           the class that owns it (uri = that class' file, selection range = its name there, ranges inside
+           that document) — the harness appends `!…` to the owner's name otherwise
 """
 import itertools
 import json
@@ -152,6 +154,11 @@ def classify(impl, spec):
             continue
         if x.startswith("prep!"):
             kinds.add("prepare-failed")
+        elif "!URI-NAMES-" in x or "!SELECTION-IS-" in x:
+            # the names are those of the declared relation but an item does not lie in its owner's file
+            kinds.add("item-not-in-owner-file")
+        elif "!RANGE-" in x or "!SELECTION-OUTSIDE" in x:
+            kinds.add("item-range-ill-formed")
         elif x.startswith("sub:"):
             have = set(x.split("=", 1)[1].split(",")) - {"-"}
             want = set(y.split("=", 1)[1].split(",")) - {"-"}
@@ -205,6 +212,8 @@ WHAT = {
     "wrong-supertype": "supertypes differ from the declared parent (or the request fails)",
     "wrong-member-supertype": "supertypes of a member differ from the nearest declaration up the forest",
     "wrong-member-subtype": "subtypes of a member differ from the nearest declarations down the forest",
+    "item-not-in-owner-file": "a returned item's uri is not the file of the class that owns it (the class itself / the declaring class of a member), or its selection range does not cover its name there",
+    "item-range-ill-formed": "a returned item's ranges are ill-formed or outside the document its uri names (C08)",
     "prepare-failed": "prepareTypeHierarchy did not return the item of the declaration",
     "crash-or-shape": "the request sequence did not produce the expected answers (panic or missing answers)",
 }
